@@ -7,7 +7,10 @@ property names (`5e-3-2e-3`, `0x1e-3`, `a-1e+2`):
 * `AdmissibleX` relaxes `Admissible`: the "a sign after `<mantissa>e` needs a gap somewhere"
   clause is only demanded of IDENTIFIER tokens (a word that is itself a literal — `0x1e`, `1e5` —
   is emitted before the lexer ever looks ahead), so `0x1e-3` is an admissible rendering of
-  `30 - 3`.
+  `30 - 3`; and only if what follows the sign is a WORD token (the lexer re-joins
+  `<mantissa>e`, sign and the next partial token only if the three parse as a float, which a
+  string literal, a parenthesis or an operator never does), so `1e+"3"` and `1e-(2)` are
+  admissible renderings of three tokens.
 
 `Admissible → AdmissibleX` and `Printable → PrintableX`, so the extended round trip
 (`C07_roundtrip_ext`, Proofs/LexExt.lean) subsumes `C07_roundtrip`.
@@ -32,7 +35,8 @@ def isIdentTok : Token → Bool
   | .identifier _ => true
   | _ => false
 
-/-- `Admissible` with the mantissa-`e` clause restricted to identifier tokens -/
+/-- `Admissible` with the mantissa-`e` clause restricted to identifier tokens followed (after the
+sign) by a word token -/
 def AdmissibleX : List (Gap × PTok) → Gap → Prop
   | [], g => ∀ s ∈ g, s.valid = true
   | (g0, p) :: rest, g =>
@@ -40,8 +44,8 @@ def AdmissibleX : List (Gap × PTok) → Gap → Prop
     (match rest with
       | (g1, q) :: rest' =>
         (fuses p.tok q.tok = true → g1 ≠ []) ∧
-        (looksLikeMantissaE p.text = true → isIdentTok p.tok = true → isSign q.tok = true → rest' ≠ [] →
-          g1 ≠ [] ∨ nextGap rest' g ≠ [])
+        (looksLikeMantissaE p.text = true → isIdentTok p.tok = true → isSign q.tok = true →
+          ∀ gr r rest'', rest' = (gr, r) :: rest'' → isWordTok r.tok = true → g1 ≠ [] ∨ gr ≠ [])
       | [] => True) ∧
     (isSlash p.tok = true → (renderFrom rest g).head? ≠ some '/' ∧ (renderFrom rest g).head? ≠ some '*') ∧
     AdmissibleX rest g
